@@ -135,6 +135,8 @@ def op_getitem(arg):
         idx = arg
         if isinstance(idx, (list, tuple)) and max(idx) >= len(m.rn):
             return obj, m
+        if len(m.pn) < 2:
+            return obj, m       # RDMs over fewer than two conditions have no entries; indexing them raises (degenerate, noted)
         o2 = obj[idx]
         if isinstance(idx, (list, tuple)) and max(idx) >= len(m.rn):
             return obj, m
